@@ -624,6 +624,7 @@ fn missing(data: &Value, vals: &[Value]) -> Exp {
         _ => vals.to_vec(),
     };
     let mut out: Vec<Value> = Vec::new();
+    let mut seen: std::collections::HashSet<String> = std::collections::HashSet::new();
     for k in &keys {
         if k.is_null() {
             continue;
@@ -631,7 +632,7 @@ fn missing(data: &Value, vals: &[Value]) -> Exp {
         match lookup(data, k) {
             Look::Found(_) => {}
             Look::Absent => {
-                if out.contains(k) {
+                if !seen.insert(k.to_string()) {
                     // whether a repeated absent key is reported once or twice is not pinned
                     return Exp::Unspec;
                 }
@@ -658,6 +659,8 @@ fn missing_some(data: &Value, vals: &[Value]) -> Exp {
     let mut present_distinct: Vec<&Value> = Vec::new();
     let mut present_total = 0u64;
     let mut absent: Vec<Value> = Vec::new();
+    let mut seen_present: std::collections::HashSet<String> = std::collections::HashSet::new();
+    let mut seen_absent: std::collections::HashSet<String> = std::collections::HashSet::new();
     for k in keys {
         if k.is_null() {
             return Exp::Unspec;
@@ -665,12 +668,12 @@ fn missing_some(data: &Value, vals: &[Value]) -> Exp {
         match lookup(data, k) {
             Look::Found(_) => {
                 present_total += 1;
-                if !present_distinct.contains(&k) {
+                if seen_present.insert(k.to_string()) {
                     present_distinct.push(k);
                 }
             }
             Look::Absent => {
-                if !absent.contains(k) {
+                if seen_absent.insert(k.to_string()) {
                     absent.push(k.clone());
                 }
             }
